@@ -403,7 +403,10 @@ def jobs(tier, seed):
         specs.append(catalog.random_spec(rng, name="rand%d_s%d" % (i, seed)))
     for s in specs:
         out.append({"name": "e2e/%s" % s["name"], "kind": "e2e", "spec": s})
-    for s in [catalog.w_circ_loop(), catalog.w_circ_mass()]:
+    gas_heat = {"name": "g_heat", "fluid": "gas", "nj": 3, "jh": [0, 4, 2], "elems": [
+        catalog.E("ext_grid", j=0, t_k=330.0), catalog.E("pipe", f=0, to=1, u=4.0, sections=2), catalog.E("pipe", f=2, to=1, u=3.0),
+        catalog.E("sink", j=2), catalog.E("sink", j=1)]}
+    for s in [catalog.w_circ_loop(), catalog.w_circ_mass(), gas_heat]:
         out.append({"name": "e2e-seq/%s" % s["name"], "kind": "e2e", "spec": s, "pfmode": "sequential"})
     for s in [catalog.w_line3(), catalog.w_mesh4(), catalog.g_line3()]:
         for numba in (False, True):
